@@ -81,16 +81,16 @@ class C28(Prop):
     MAX_WORKERS = 6
     LEVEL_TEXT = ("Theorems (Coq, closed under the global context), for any number of bindings, any path depth and any "
                   "number of deployments: get_binding_config's answer for a step equals the walk `nearest` over the flat "
-                  "list of step bindings (a binding on the step's own path or else its nearest bound ancestor, last "
-                  "declaration winning, port bindings without influence, local when none), via a trie model of "
+                  "list of step bindings and its closed form `best` (the step binding with the longest path that is a "
+                  "prefix of the step's path, last declaration winning, port bindings without influence, local when "
+                  "none), via a trie model of "
                   "put/set_targets/propagate and of PurePosixPath.parts; set_targets never changes an answer; the "
                   "constructor accepts exactly absolute binding paths; _get_workdir returns the deployment's own workdir "
                   "or the first one along the wraps chain; the cycle check terminates, a rejection names a genuine "
                   "cycle, and after acceptance _get_workdir terminates for every deployment. Tied to /repo by running "
                   "the real WorkflowConfig/get_binding_config and the model on generated StreamFlow configurations.")
     LEVEL_NOTE = ("Partial: 'every reachable wraps cycle is rejected' is proved only as its contrapositive (accepted => "
-                  "every chain ends, C28_cycles_accepted_terminates_partial); the equality of `nearest` with the closed form "
-                  "'longest bound prefix' is stated in Binding/Spec.v (`best`) but only checked by the oracle, not proved. "
+                  "every chain ends, C28_cycles_accepted_terminates_partial). "
                   "Trusted: Coq kernel + vm_compute; the hand-written model (tied to the code by the correspondence run); "
                   "PurePosixPath.parts is modelled for '/'-separated ASCII paths; Target.__init__'s `or` chain is in Corr.v. "
                   "No axioms.")
@@ -188,7 +188,7 @@ class C28(Prop):
         return {"f": "deploy", "deployments": deps, "targets": targets}
 
     def gen(self, rng, tier):
-        n = {"quick": 600, "thorough": 6000, "extended": 5000}[tier]
+        n = {"quick": 600, "thorough": 3000, "extended": 3000}[tier]
         return [self._nearest_case(rng) for _ in range(n)] + [self._deploy_case(rng) for _ in range(n // 2)]
 
     # ---------------------------------------------------------------- implementation
